@@ -9,6 +9,14 @@ use crate::universe as u;
 pub const LITERALS: [&str; 19] =
     ["a", "0", "1", "0.5", "2", "-", "-1", "+", " ", "é", "😀", "\u{301}", "\\", "{", "}", "=", "\t", "\n", "\u{3000}"];
 
+pub const NUMBER_EDGES: [&str; 58] = [
+    "0", "1", "0.0", "1.0", "1.0000000001", "1.000000001", "1.0000000000000002", "1.00000000000000000001", "1.0000001", "1.1", "2",
+    "0.99999999999999999999", "0.9999999999999999", "-0", "-0.0", "-0.0000000001", "-1", "+0", "+0.5", "+1", "00", "007", "1.", ".1", ".", "..",
+    "1..2", "1.2.3", "0.", "1e0", "1e-5", "1E5", "1e400", "1e-400", "NaN", "nan", "inf", "infinity", "-inf", "0x10", "1_0", "٣", "²", "１", "1٣",
+    "9223372036854775807", "9223372036854775808", "-9223372036854775808", "-9223372036854775809", "18446744073709551615",
+    "18446744073709551616", "9007199254740993", "4294967296", "+-1", "--1", "-+1", "1-", "1+",
+];
+
 /// every distinct non-empty keyword of the format
 pub fn keywords(f: &F) -> Vec<String> {
     let e = f.e;
@@ -194,6 +202,15 @@ pub fn g3(f: &F, sigma: &[String]) -> Vec<String> {
     }
     towers.push((c.brackets_set_extension.0.into(), "a".into(), c.brackets_set_extension.1.into()));
     towers.push((c.brackets_set_intension.0.into(), "a".into(), c.brackets_set_intension.1.into()));
+    // the nested component after / before a sibling
+    for conn in [c.connecter_conjunction, c.connecter_product, c.connecter_intersection_extension] {
+        towers.push((format!("{}{}{}b{}", c.brackets.0, conn, c.separator, c.separator), "a".into(), c.brackets.1.into()));
+        towers.push((format!("{}{}{}", c.brackets.0, conn, c.separator), "a".into(), format!("{}b{}", c.separator, c.brackets.1)));
+    }
+    for (l, r) in [c.brackets_set_extension, c.brackets_set_intension] {
+        towers.push((format!("{l}b{}", c.separator), "a".into(), r.into()));
+        towers.push((l.into(), "a".into(), format!("{}b{r}", c.separator)));
+    }
     for cop in f.copulas() {
         towers.push((st.brackets.0.into(), "a".into(), format!("{}b{}", cop, st.brackets.1)));
         towers.push((format!("{}b{}", st.brackets.0, cop), "a".into(), st.brackets.1.into()));
@@ -211,6 +228,30 @@ pub fn g3(f: &F, sigma: &[String]) -> Vec<String> {
             let s = &f.e.sentence;
             out.push(format!("{}{}{} {}{}{}", open.repeat(d), leaf, s.punctuation_judgement, s.truth_brackets.0, "1", s.truth_brackets.1));
             out.push(format!("{}{}{}{}", f.e.task.budget_brackets.0, "0.5", f.e.task.budget_brackets.1, full));
+        }
+    }
+    // number strings at and around every boundary a numeric slot has (range ends 0 and 1 with
+    // their closest neighbours in both directions, integer limits, signs, exponents, non-ASCII
+    // digits, repeated dots), in every slot: truth (alone, first, second), budget (first, second,
+    // third), fixed stamp, interval (bare and as a component)
+    {
+        let s = &f.e.sentence;
+        let t = &f.e.task;
+        let p = s.punctuation_judgement;
+        let (tl, tr, ts) = (s.truth_brackets.0, s.truth_brackets.1, s.truth_separator);
+        let (bl, br, bs) = (t.budget_brackets.0, t.budget_brackets.1, t.budget_separator);
+        for n in NUMBER_EDGES {
+            out.push(format!("a{p} {tl}{n}{tr}"));
+            out.push(format!("a{p} {tl}{n}{ts}0.9{tr}"));
+            out.push(format!("a{p} {tl}0.9{ts}{n}{tr}"));
+            out.push(format!("{bl}{n}{br} a{p}"));
+            out.push(format!("{bl}0.5{bs}{n}{br} a{p}"));
+            out.push(format!("{bl}0.5{bs}0.5{bs}{n}{br} a{p}"));
+            out.push(format!("a{p} {}{}{n}{}", s.stamp_brackets.0, s.stamp_fixed, s.stamp_brackets.1));
+            out.push(format!("{}{n}", f.e.atom.prefix_interval));
+            out.push(format!("{}{}{}a{}{}{n}{}", c.brackets.0, c.connecter_conjunction_sequential, c.separator, c.separator, f.e.atom.prefix_interval, c.brackets.1));
+            out.push(format!("{tl}{n}{tr}"));
+            out.push(format!("{bl}{n}{br}"));
         }
     }
     // overlong numbers
